@@ -87,7 +87,7 @@ Lemma km_load_operand : km load_operand. Proof. mgo. Qed.
 Lemma km_store_operand v : km (store_operand v).
 Proof.
   unfold store_operand. apply mono_bind; [exact _|mgo|intros o]. apply mono_bind; [exact _|mgo|intros s].
-  destruct o; try mgo. destruct (_ <? _); [apply (mono_set_globals kmono)|mgo].
+  destruct o; try mgo. destruct (_ <? _); [apply mono_set_globals|mgo].
 Qed.
 Hint Resolve km_enter_frame km_load_operand km_store_operand : mono.
 
